@@ -27,6 +27,8 @@ def cases(tier):
         if name == "cagrad":
             continue  # CAGrad: z3 decides the permuted run only sometimes (3 of 21 obligations unknown at 60 s in the thorough run): not claimed
         cs.append(dict(name=f"{name}_m2_p1", fn="gram", args=dict(agg=name, m=2, pi=0), weight=30 if name == "cagrad" else 6, **({'budget_s': 900} if name == 'cagrad' else {})))
+    # m = 3 with a configured preference vector was tried for upgrad_pref / dualproj_pref (candidate formulation: z3 unknown on 24 of 240 queries,
+    # 216 s; on the non-conflicting sub-domain with "the vector itself" offered as candidate: no answer within 225 s per case), so it is not claimed
     for m in (2, 3, 4):
         for n in (1, 2):
             if m == 4 and n == 2 and tier != "thorough":
